@@ -921,6 +921,11 @@ class NumpyModel:
             out = out.w(store='fresh', fresh=True, prov=None)
         else:
             out = out.w(view_of=base.store)
+        # one frame picked from a [frame, ...] array: remember which frame (symbolically)
+        if axes is not None and axes and axes[0] == 'frame' and items and items[0].ty != 'slice' and new_axes is not None and 'frame' not in new_axes \
+                and isinstance(node, ast.Subscript):
+            first = node.slice.elts[0] if isinstance(node.slice, ast.Tuple) and node.slice.elts else node.slice
+            out = out.w(frame_idx=interp.sx(first))
         # a scalar element
         if new_axes == ():
             out = out.w(ty='float' if base.dtype != 'int' else 'int')
